@@ -13,3 +13,47 @@ if sys.path[0] != SISMIC_SRC:
 VERIF_DIR = os.path.dirname(os.path.dirname(os.path.abspath(__file__)))
 if VERIF_DIR not in sys.path:
     sys.path.insert(1, VERIF_DIR)
+
+
+# ---------------------------------------------------------------------------------------------------------------
+# Watchdog: code under test that never terminates must become a reported failure, not a check that never ends.
+# Every Interpreter.execute_once call made from the main thread of a (worker) process runs under a wall-clock timer;
+# on these small charts a call takes milliseconds.  (The threads of C20 are scheduled by mc/sched.py, which has its
+# own horizon.)  The original function stays reachable as execute_once.__wrapped__.
+HANG_S = float(os.environ.get('VERIF_HANG_S', '30'))
+
+
+class HangError(BaseException):
+    """not an Exception: neither the library's nor the checks' `except Exception` clauses may swallow it; it ends the
+    whole check, which verify.py reports as a violation (`<ID>:aborted`)"""
+
+
+def _install_watchdog():
+    import functools
+    import signal
+    import threading
+    try:
+        from sismic.interpreter import Interpreter
+    except Exception:       # the tree under test does not even import: the checks will say so
+        return
+    orig = Interpreter.execute_once
+    if getattr(orig, '__wrapped__', None) is not None:
+        return
+
+    def on_alarm(signum, frame):
+        raise HangError('execute_once did not return within %.0f s (the step never terminates)' % HANG_S)
+
+    @functools.wraps(orig)
+    def execute_once(self):
+        if threading.current_thread() is not threading.main_thread():
+            return orig(self)
+        signal.signal(signal.SIGALRM, on_alarm)
+        signal.setitimer(signal.ITIMER_REAL, HANG_S)
+        try:
+            return orig(self)
+        finally:
+            signal.setitimer(signal.ITIMER_REAL, 0)
+    Interpreter.execute_once = execute_once
+
+
+_install_watchdog()
